@@ -637,4 +637,129 @@ theorem C02_cull_nondividing_counterexample :
       .keyed .disc ⟨1, 1, 0, 1, 1, 23, 3, false⟩ true [(60, 4)] := by
   decide +kernel
 
+/-! ### Round 4: sibling classes, container of the request, the float form of an hour -/
+
+/-- **Mutable and immutable twins answer alike.**  What a filter (or a look at the collection) answers
+    does not depend on the mutability flag of the object: the immutable twin of every class gives the
+    answer of the mutable one for every question (the twins differ only in refusing setters and
+    in-place operations, `C02_refused_preserves`).  So every filter theorem of this file holds for both
+    twins of all classes. -/
+theorem C02_twins_agree (hoyOf : Nat → Rat) (o : Obj) (b : Bool) (r : Read) :
+    ({ o with mutable := b } : Obj).answer hoyOf r = o.answer hoyOf r ∧
+    (({ o with mutable := b } : Obj).observe hoyOf r).1 = (o.observe hoyOf r).1 ∧
+    ({ o with mutable := b } : Obj).view = o.view :=
+  ⟨rfl, rfl, rfl⟩
+
+/-- **The container of the request does not matter, only its elements in their order.**  The model
+    takes the request as the list of its elements in iteration order (what a list, a tuple, a
+    generator, an iterator or a `map` object yield; the harness feeds the same elements in every one
+    of these shapes to the real filters).  Moreover the ORDER in which a continuous collection is
+    asked for minutes of its own only permutes the answer: asked for a permutation of the request
+    (a `set`, dictionary keys, a shuffled list) the index arithmetic returns a permutation of the
+    same pairs. -/
+theorem C02_request_order {α : Type} (c : Cont α) (hc : c.WF) (req req' : List Nat) (hne : req ≠ [])
+    (hreq : ∀ m ∈ req, m ∈ c.ap.moys) (hp : req'.Perm req) :
+    ∃ r r', Cont.filterByMoys (req.map Int.ofNat) c = .ok r ∧
+      Cont.filterByMoys (req'.map Int.ofNat) c = .ok r' ∧
+      (r'.pairs.map Prod.fst).Perm (r.pairs.map Prod.fst) ∧
+      (∀ p, p ∈ r'.pairs ↔ p ∈ r.pairs) := by
+  have hne' : req' ≠ [] := by
+    intro h0
+    rw [h0] at hp
+    exact hne (List.Perm.eq_nil (hp.symm))
+  have hreq' : ∀ m ∈ req', m ∈ c.ap.moys := fun m hm => hreq m (hp.mem_iff.mp hm)
+  obtain ⟨r, h1, _, _, h3, h4⟩ := C02_cont_moys c hc req hne hreq
+  obtain ⟨r', h1', _, _, h3', h4'⟩ := C02_cont_moys c hc req' hne' hreq'
+  refine ⟨r, r', h1, h1', by rw [h3, h3']; exact hp, ?_⟩
+  -- a pair of either answer is the source pair at its minute, and both answers hold the same minutes
+  have key : ∀ (a b : Disc α), (∀ p ∈ a.pairs, p ∈ c.pairs) → (∀ p ∈ b.pairs, p ∈ c.pairs) →
+      (∀ m, m ∈ a.pairs.map Prod.fst → m ∈ b.pairs.map Prod.fst) → ∀ p ∈ a.pairs, p ∈ b.pairs := by
+    intro a b ha hb hm p hpa
+    have : p.1 ∈ b.pairs.map Prod.fst := hm _ (List.mem_map_of_mem hpa)
+    obtain ⟨q, hq, hq1⟩ := List.mem_map.mp this
+    have := pairs_fst_inj c hc.1 q p (hb q hq) (ha p hpa) hq1
+    rw [← this]
+    exact hq
+  intro p
+  constructor
+  · exact key r' r h4' h4 (fun m hm => by rw [h3]; rw [h3'] at hm; exact hp.mem_iff.mp hm) p
+  · exact key r r' h4 h4' (fun m hm => by rw [h3']; rw [h3] at hm; exact hp.mem_iff.mpr hm) p
+
+/-- The exact value of the double `m / 60.0` at 01:40 (minute 100) is `0x3FFAAAAAAAAAAAAB`; the double
+    `1 + 40 / 60.0` (what `DateTime.hoy` computes for that step) is one unit in the last place below. -/
+private def hoyQuot : Nat → Rat := fun m =>
+  if m = 100 then (7505999378950827 : Rat) / 4503599627370496 else (m : Rat) / 60
+private def hoySum100 : Rat := (7505999378950826 : Rat) / 4503599627370496
+
+/-- **An hour of the year in another float form is lost by the continuous class only** (the code as
+    it is; recorded finding `C02-cont-hoys-datetime-hoy`): a 20-minute collection over 1 Jan holds
+    01:40; asked for the hour `1 + 40/60.0` – what `DateTime.hoy` answers for that very step, one bit
+    below `100 / 60.0` – the continuous `filter_by_hoys` drops the request (`h in existing_hoys` is an
+    exact float comparison) and fails on the empty result, while the discontinuous twin rounds
+    `hour * 60` to minute 100 and returns the pair.  So "`C02_hoys_cont` = `C02_hoys_disc`" needs its
+    hypothesis that the hours ARE the floats `m / 60.0`. -/
+theorem C02_hoys_other_float_counterexample :
+    let c : Cont Nat := ⟨⟨1, 1, 0, 1, 1, 23, 3, false⟩, List.range 72⟩
+    c.WF ∧ 100 ∈ c.ap.moys ∧ Py.round (hoySum100 * 60) = 100 ∧ hoySum100 ≠ hoyQuot 100 ∧
+    (Cont.filterByHoys hoyQuot [(hoySum100, hoySum100 * 60)] c).toOption.map (·.pairs) = none ∧
+    (Disc.filterByHoys [hoySum100 * 60] c.toDisc).toOption.map (·.pairs) = some [(100, 5)] := by
+  decide +kernel
+
+/-! ### The strict in-place cull (fixes/C13_continuous_cull_in_place_divisor.patch)
+
+`stepS true` / `runS true` is the machine of a tree whose continuous class asserts that the new timestep
+divides the current one before it culls in place; `stepS false = step` is the machine of a tree without that
+assert, for which `C02_cull_nondividing_counterexample` stands. -/
+
+/-- **The strict class refuses the non-dividing cull and nothing changes**: on a mutable continuous object a
+    cull to a timestep that does not divide the current one answers AssertionError, the object is the one
+    before, and every question is answered as before (so the broken state of
+    `C02_cull_nondividing_counterexample` is unreachable); a timestep that divides is handled as by the
+    non-strict machine; and without the assert the strict machine IS the old one. -/
+theorem C02_strict_cull_refused (hoyOf : Nat → Rat) (o : Obj) (ts : Nat) (hk : o.kind = .cont)
+    (hm : o.mutable = true) :
+    (o.ap.timestep % ts ≠ 0 → stepS true hoyOf o (.cull ts) = (o, .err .assert) ∧
+      ∀ r, ((stepS true hoyOf o (.cull ts)).1.observe hoyOf r).1 = (o.observe hoyOf r).1) ∧
+    (o.ap.timestep % ts = 0 → stepS true hoyOf o (.cull ts) = step hoyOf o (.cull ts)) ∧
+    (∀ op, stepS false hoyOf o op = step hoyOf o op) := by
+  refine ⟨?_, ?_, fun op => stepS_false hoyOf o op⟩
+  · intro hnd
+    have e : stepS true hoyOf o (.cull ts) = (o, .err .assert) := by
+      unfold stepS
+      have : strictRefuses true o (.cull ts) = true := by
+        simp [strictRefuses, hk, hm, hnd]
+      rw [this]; rfl
+    exact ⟨e, fun r => by rw [e]⟩
+  · intro hd
+    unfold stepS
+    have : strictRefuses true o (.cull ts) = false := by
+      simp [strictRefuses, hk, hd]
+    rw [this]; rfl
+
+/-- **Refused operations and histories on the strict machine.**  Whatever the tree (strict or not): an
+    operation that answers an error leaves the public state and every later answer unchanged, and after any
+    history every question is answered as by a fresh object built from the final public state.  On the
+    strict machine the side condition is needed only for culls it accepts (`CoherentS`: a refused cull needs
+    none). -/
+theorem C02_strict_history_refines_fresh (strict : Bool) (hoyOf : Nat → Rat) (o : Obj) (ops : List Op)
+    (h : o.Inv) (hc : CoherentS strict hoyOf o ops) (r : Read) :
+    (runS strict hoyOf o ops).1.Inv ∧
+    ((runS strict hoyOf o ops).1.observe hoyOf r).1 = ((runS strict hoyOf o ops).1.fresh.observe hoyOf r).1 ∧
+    (∀ (op : Op) (e : OErr), (stepS strict hoyOf o op).2 = .err e →
+      (stepS strict hoyOf o op).1.view = o.view ∧ (stepS strict hoyOf o op).1.mutable = o.mutable) := by
+  have hi := runS_inv strict hoyOf ops o h hc
+  refine ⟨hi, (C02_read_pure hoyOf _ hi r r).1, ?_⟩
+  intro op e herr
+  rcases stepS_cases strict hoyOf o op with ⟨_, e1⟩ | ⟨_, e1⟩
+  · rw [e1]; exact ⟨rfl, rfl⟩
+  · rw [e1] at herr ⊢
+    exact ⟨(C02_refused_preserves hoyOf o op e herr .all).1, (C02_refused_preserves hoyOf o op e herr .all).2.1⟩
+
+/-- Non-vacuity: on the strict machine the history of the former finding (quarter-hourly data, cull to 3 steps
+    per hour, ask for 01:00) refuses the cull and answers (60, 4) - the pair of 01:00. -/
+example : CoherentS true exHoy cxObj [.cull 3, .read (.keys [60])] ∧
+    (runS true exHoy cxObj [.cull 3, .read (.keys [60])]).2 =
+      [.err .assert, .keyed .disc ⟨1, 1, 0, 1, 1, 23, 4, false⟩ true [(60, 4)]] := by
+  refine ⟨⟨Or.inl (by decide +kernel), Or.inr trivial, trivial⟩, by decide +kernel⟩
+
 end Filter
